@@ -16,7 +16,7 @@ from vlib import Infra
 def tcfg(name):
     p = os.path.join(vlib.BUILD, name + ".cfg")
     with open(p, "w") as f:
-        f.write("SPECIFICATION TSpec\nCONSTANTS\n  Threads = {1,2,3,4,5,6,7,8,9}\n  NBlk = 400\n  Cap = 224\n  MaxOps = 0\n  NRes = 16\n  SharedScratch = FALSE\n  DrainOnExit = TRUE\n"
+        f.write("SPECIFICATION TSpec\nCONSTANTS\n  Threads = {1,2,3,4,5,6,7,8,9,10,11,12}\n  NBlk = 400\n  Cap = 224\n  MaxOps = 0\n  NRes = 16\n  SharedScratch = FALSE\n  DrainOnExit = TRUE\n"
                 "INVARIANTS RaceFree HeapSoundT\nPOSTCONDITION Accepted\nCHECK_DEADLOCK FALSE\n")
     return p
 
